@@ -64,3 +64,16 @@ package parsing
 //@   exits any
 //@   loop 1: invariant true
 //@   assert_before_call tokenError: $t == endTok
+
+// `return` followed by a token that ends the block (end, else, elseif, until,
+// end of input) or by `;` returns no values: an expression list is only parsed
+// when the next token is none of those, so every block-closing token may follow
+// a bare return.
+//@ func (*Parser).Return
+//@   prop C12
+//@   arith int
+//@   norte
+//@   nocover
+//@   modifies everything()
+//@   exits any
+//@   assert_before_call ExpList: $t.Type != token.KwEnd && $t.Type != token.KwElse && $t.Type != token.KwElseIf && $t.Type != token.KwUntil && $t.Type != token.EOF && $t.Type != token.SgSemicolon
